@@ -24,9 +24,9 @@ META = {
     "level_note": "Histories are solver-selected and concretely executed (selector-enumerated). The file system is the in-memory stub (real OS file "
                   "system, encodings, concurrent writers outside the claim). Different spellings of one instant in dictionary-kept objects are "
                   "outside the claim.",
-    "technique": "CrossHair-driven bounded enumeration of add histories on the real stores over an in-memory FS stub vs a list model; symbolic "
-                 "version keys for family tracking; counterexamples replayed natively",
-    "outside": ["real OS file system", "histories longer than 3", "timestamp spellings of dictionary-kept objects", "bundlify mode"],
+    "technique": "CrossHair-driven bounded enumeration of add histories on the real stores over an in-memory FS stub vs a list model; AST-to-SMT "
+                 "interpretation (pysym, z3) of latest-version tracking, the composite's choice and file naming over symbolic timestamp texts; counterexamples replayed natively",
+    "outside": ["real OS file system", "histories longer than 3", "timestamp texts with more than 6 fraction digits"],
     "assumptions": [FSS],
 }
 
